@@ -57,6 +57,7 @@ where
         committed: CommittedPrefixEnd,
     ) -> Result<(), GrevmError<DB::Error>> {
         let start = committed.index();
+        vobs!(SEQ_REPLAY, start, 0, 0, 0);
         let result_count = self.results.lock().len();
         // State is already committed through `start`; outcomes must name the identical prefix
         // before replay can safely append the suffix.
